@@ -92,7 +92,7 @@ func (c c17) Generate(e *Env) ([]*Case, error) {
 	}
 	n := 21
 	if thorough {
-		n = 220
+		n = 110
 	}
 	for i := 0; i < n; i++ {
 		p := c17Params{Clients: mixes[i%len(mixes)](), Start: starts[i%len(starts)], Sched: SchedSpec{Kind: scheds[rng.Intn(3)], Seed: rng.Int63()}}
